@@ -73,6 +73,9 @@ func main() {
 				continue
 			}
 			c.Reqs = expand(r, c)
+			if r.IntN(4) == 0 {
+				c.Churn = r.Uint64() | 1
+			}
 			check(run, c, r)
 		}
 	})
@@ -239,6 +242,13 @@ func check(run *kit.Run, c route.Case, r *rand.Rand) {
 	})
 	if b == nil {
 		return
+	}
+	if b.Churned > 0 {
+		run.Count("cases_with_delete_churn", 1)
+		run.Count("churn_routes_added_and_deleted", int64(b.Churned))
+	}
+	if b.ChurnErr != "" {
+		run.Violate("churn|"+c.RoutesString(), b.ChurnErr, c)
 	}
 	type outcome struct {
 		got route.Obs
